@@ -371,7 +371,7 @@ def shard_cliffs(ctx, k, payload):
 
 def run(ctx):
     quick = ctx.tier == 'quick'
-    nc_, mt = (160, 120) if quick else (4000, 200)
+    nc_, mt = (160, 120) if quick else (2400, 160)
     hyp.pmap(ctx, shard_cliffs, [(max(1, nc_ // 16), mt, ctx.seed * 1000 + 700 + k) for k in range(16)])
     n, nvar = (400, 6) if quick else (10000, 12)
     shards = 16
